@@ -1,8 +1,15 @@
 #!/bin/sh
-# Build the Lean model, proofs and driver from files on disk only (offline).
+# Build the Lean model, proofs and per-property drivers from files on disk only (offline).
 set -e
 cd "$(dirname "$0")/lean/PyresampleModel"
-lake build 2>&1 | grep -v "conda.cli.condarc" | tail -5
-test -x .lake/build/bin/driver
-echo ping | .lake/build/bin/driver | grep -q pong
-echo "setup ok"
+lake build 2>&1 | grep -v "conda.cli.condarc" | tail -3
+DRIVERS=""
+for f in ../../meta/C*.json; do
+  id=$(basename "$f" .json)
+  if grep -q '"claimed": true' "$f"; then DRIVERS="$DRIVERS driver_$id"; fi
+done
+lake build $DRIVERS 2>&1 | grep -v "conda.cli.condarc" | tail -3
+for d in $DRIVERS; do
+  echo ping | .lake/build/bin/$d | grep -q pong
+done
+echo "setup ok:$DRIVERS"
